@@ -379,25 +379,27 @@ theorem incDistribute_gauges_exact (s : State) (gs : List Gauge) (ee : Bool) (s'
       subst h
       exact (incLoop_gauges_exact ee gs s [] s1 tr hid hnd hcoh hl).2
 
-/-- **x/streamer `Keeper.Distribute` (EndBlock and epoch end), state level**: there is a list of gauges — the
-    gauges the pass funded, each a copy of a stored gauge (same kind, same distributed coins, coins topped up),
-    ids distinct — such that every account other than the two module accounts is credited exactly what those
-    gauges owe it -/
-theorem strDistribute_pays_exactly (s : State) (es : List Nat) (streams : List Stream) (maxOps : Nat) (ee : Bool) (s' : State)
+/-- the gauges one pass of x/streamer `Keeper.Distribute` funds and hands to x/incentives `Keeper.Distribute`
+    (the gauge cache after the pointer loop), executable: the driver prints `dueG` / `dueTotal` over them -/
+def strGauges (s : State) (es : List Nat) (streams : List Stream) (maxOps : Nat) : List Gauge :=
+  (ptrLoop s maxOps (sortByDuration es) 0 ⟨sortById streams, [], []⟩ s.ptrs).2.1.gauges
+
+theorem strDistribute_pays_explicit (s : State) (es : List Nat) (streams : List Stream) (maxOps : Nat) (ee : Bool) (s' : State)
     (hg : GInv s) (h : strDistribute s es streams maxOps ee = .ok s') :
-    ∃ gs : List Gauge, (gs.map (·.id)).Nodup ∧ (∀ g ∈ gs, Coh s.gauges g) ∧
+    ((strGauges s es streams maxOps).map (·.id)).Nodup ∧ (∀ g ∈ strGauges s es streams maxOps, Coh s.gauges g) ∧
       (∀ a, a ≠ streamerAddr → a ≠ incAddr → ∀ i,
-        amt (s'.bank.get a) i = amt (s.bank.get a) i + (gs.map (dueG s · a i)).sum) ∧
-      (∀ g ∈ gs, ∃ g', getG s'.gauges g.id = some g' ∧ ∀ i, amt g'.distributed i = amt g.distributed i + dueTotal s g i) := by
+        amt (s'.bank.get a) i = amt (s.bank.get a) i + ((strGauges s es streams maxOps).map (dueG s · a i)).sum) ∧
+      (∀ g ∈ strGauges s es streams maxOps, ∃ g', getG s'.gauges g.id = some g' ∧ ∀ i, amt g'.distributed i = amt g.distributed i + dueTotal s g i) := by
   unfold strDistribute at h
+  unfold strGauges
   have hci := ptrLoop_CI s hg.ids maxOps (sortByDuration es) 0 ⟨sortById streams, [], []⟩ s.ptrs
     ⟨by simp, by simp, by intro i; simp [extras]⟩
-  generalize ptrLoop s maxOps (sortByDuration es) 0 ⟨sortById streams, [], []⟩ s.ptrs = res at h hci
+  generalize ptrLoop s maxOps (sortByDuration es) 0 ⟨sortById streams, [], []⟩ s.ptrs = res at h hci ⊢
   obtain ⟨tot, c, ps⟩ := res
-  dsimp only at h hci
+  dsimp only at h hci ⊢
   obtain ⟨ci1, ci2, _⟩ := hci
   have hne : streamerAddr ≠ incAddr := by decide
-  refine ⟨c.gauges, ci1, ci2, ?_⟩
+  refine ⟨ci1, ci2, ?_⟩
   have key : ∀ b : Bank, (∀ a, a ≠ streamerAddr → a ≠ incAddr → ∀ i, amt (b.get a) i = amt (s.bank.get a) i) →
       ∀ s2, incDistribute { s with ptrs := ps, bank := b } c.gauges ee = .ok s2 → saveStreams ee c.streams s2 = .ok s' →
       (∀ a, a ≠ streamerAddr → a ≠ incAddr → ∀ i,
@@ -441,6 +443,18 @@ theorem strDistribute_pays_exactly (s : State) (es : List Nat) (streams : List S
         have := sb a i
         rw [if_neg ha, if_neg hb] at this
         exact this
+
+/-- **x/streamer `Keeper.Distribute` (EndBlock and epoch end), state level**: there is a list of gauges — the
+    gauges the pass funded, each a copy of a stored gauge (same kind, same distributed coins, coins topped up),
+    ids distinct — such that every account other than the two module accounts is credited exactly what those
+    gauges owe it -/
+theorem strDistribute_pays_exactly (s : State) (es : List Nat) (streams : List Stream) (maxOps : Nat) (ee : Bool) (s' : State)
+    (hg : GInv s) (h : strDistribute s es streams maxOps ee = .ok s') :
+    ∃ gs : List Gauge, (gs.map (·.id)).Nodup ∧ (∀ g ∈ gs, Coh s.gauges g) ∧
+      (∀ a, a ≠ streamerAddr → a ≠ incAddr → ∀ i,
+        amt (s'.bank.get a) i = amt (s.bank.get a) i + (gs.map (dueG s · a i)).sum) ∧
+      (∀ g ∈ gs, ∃ g', getG s'.gauges g.id = some g' ∧ ∀ i, amt g'.distributed i = amt g.distributed i + dueTotal s g i) :=
+  ⟨_, strDistribute_pays_explicit s es streams maxOps ee s' hg h⟩
 
 /-- for an asset gauge `dueG` is the sum of `lockReward` over the account's locks that qualify for the gauge -/
 theorem dueG_asset (s : State) (g : Gauge) (d dur : Nat) (hk : g.kind = .asset d dur) (hc : g.coins.isZero = false)
